@@ -41,7 +41,12 @@ class ValueGen:
         res = self.env.resolve(t)
         if isinstance(res, tuple):
             if res[0] == "record":
-                return {n: self.gen(ft) for n, ft in self.env.record_fields(res)}
+                fields = self.env.record_fields(res)
+                kinds = [self.env.resolve(ft) for _, ft in fields]
+                if fields and all(isinstance(k, Opt) or (isinstance(k, Union) and k.nullable) for k in kinds) and r.fork("allunset", len(fields)).chance(0.35):
+                    # a record none of whose fields is set: the value that has no members at all in NDJSON
+                    return {n: None for n, _ in fields}
+                return {n: self.gen(ft) for n, ft in fields}
             return self.gen_enum(res[1])
         t = res
         if isinstance(t, Prim):
